@@ -126,13 +126,16 @@ class OperatorTemplate(AbstractBaseTemplate):
     def apply(self, return_key=False, values: dict = None):
         """Returns the non-editable but unique, cashed definition of the operator."""
 
-        # key for global operator cache is the frozen list of equation strings.
+        # the operator keeps its NAME as label; the global operator cache is keyed by the whole definition (name, equations,
+        # variable declarations), so that an operator that merely shares its name with one applied earlier - in another
+        # circuit of the same process or in the same circuit - never inherits that one's equations and default values.
         key = self.name
+        cache_key = (self.name, tuple(self.equations), _canonical(self.variables))
         if values is None:
             values = {}
 
         try:
-            instance, default_values = self.cache[key]
+            instance, default_values = self.cache[cache_key]
 
             for vname, value in default_values.items():
                 if vname not in values:
@@ -171,12 +174,27 @@ class OperatorTemplate(AbstractBaseTemplate):
             equations = self.equations
             instance = self.target_ir(equations=equations, variables=variables, inputs=inputs, output=output,
                                       template=self)
-            self.cache[key] = (instance, default_values)
+            self.cache[cache_key] = (instance, default_values)
 
         if return_key:
             return instance, values, key
         else:
             return instance, values
+
+
+def _canonical(x):
+    """Hashable, order-independent description of a variable declaration (dicts, strings, numbers, arrays)."""
+    if isinstance(x, dict):
+        return tuple(sorted(((str(k), _canonical(v)) for k, v in x.items()), key=lambda kv: kv[0]))
+    if isinstance(x, (list, tuple)):
+        return tuple(_canonical(v) for v in x)
+    if hasattr(x, 'tobytes') and hasattr(x, 'shape'):
+        return 'array', tuple(x.shape), str(x.dtype), x.tobytes()
+    try:
+        hash(x)
+        return type(x).__name__, x
+    except TypeError:
+        return type(x).__name__, repr(x)
 
 
 def check_vname(v: str, vtype: str):
